@@ -68,6 +68,13 @@ def main():
             ctx.count('builtin_names_used_by_the_module_tried')
             glob.full_check(rng)
             local.full_check(rng)
+        # closure on the module side: every attribute the Tags module has at run time (functions defined late in the file, private
+        # globals, dunders) is tried as a tag name of the GLOBAL library in every history
+        for n in module_names:
+            glob.add(n)
+            tried.append([glob.label, n])
+            ctx.count('module_attribute_names_tried_on_the_global_library')
+            glob.full_check(rng)
         for n in names + closure + module_names[:6]:
             d = glob if rng.random() < (0.7 if n not in closure else 0.5) and n not in module_names else local
             fresh = n not in d.ref
